@@ -27,11 +27,13 @@ struct IsoSpec {
 }
 
 /// Pairs (and triples) of keys that differ in exactly one component.
-fn key_variants(ch: &mut Ch, n: usize, upload: bool) -> Vec<(Ep, u8, Vec<Vec<u8>>)> {
-    let (m1, m2, m3) = if upload { (3u8, 2u8, 6u8) } else { (1u8, 5u8, 1u8) };
+/// Methods 1 (GET) and 5 (FETCH) are downloads, 2 (POST), 3 (PUT) and 6
+/// (PATCH) uploads, so keys that differ in the method may mix both kinds.
+fn key_variants(ch: &mut Ch, n: usize) -> Vec<(Ep, u8, Vec<Vec<u8>>)> {
+    let methods = [1u8, 3, 5, 2, 6];
+    let m1 = methods[ch.below(5, "iso.method") as usize];
     let base_path = vec![seg("a"), seg("b")];
     let path_alts: Vec<Vec<Vec<u8>>> = vec![vec![seg("a/b")], vec![seg("a")], vec![seg("a"), seg("b"), seg("c")], vec![seg("a"), seg("B")], vec![seg("a"), seg("")]];
-    let empty_alts: Vec<(Vec<Vec<u8>>, Vec<Vec<u8>>)> = vec![(vec![], vec![seg("")])];
     let mut v = vec![(100 as Ep, m1, base_path.clone())];
     let dim = ch.below(4, "iso.dim");
     match dim {
@@ -43,10 +45,13 @@ fn key_variants(ch: &mut Ch, n: usize, upload: bool) -> Vec<(Ep, u8, Vec<Vec<u8>
             }
         }
         1 => {
-            // differ in method
-            v.push((100, m2, base_path.clone()));
-            if n > 2 && m3 != m1 {
-                v.push((100, m3, base_path.clone()));
+            // differ in method (possibly mixing uploads and downloads)
+            let others: Vec<u8> = methods.iter().copied().filter(|m| *m != m1).collect();
+            let i = ch.below(others.len() as u64, "iso.method2") as usize;
+            v.push((100, others[i], base_path.clone()));
+            if n > 2 {
+                let j = (i + 1 + ch.below(others.len() as u64 - 1, "iso.method3") as usize) % others.len();
+                v.push((100, others[j], base_path.clone()));
             }
         }
         2 => {
@@ -60,9 +65,8 @@ fn key_variants(ch: &mut Ch, n: usize, upload: bool) -> Vec<(Ep, u8, Vec<Vec<u8>
         }
         _ => {
             // empty path vs a single empty segment
-            let (a, b) = empty_alts[0].clone();
-            v[0].2 = a;
-            v.push((100, m1, b));
+            v[0].2 = vec![];
+            v.push((100, m1, vec![seg("")]));
         }
     }
     v
@@ -70,8 +74,8 @@ fn key_variants(ch: &mut Ch, n: usize, upload: bool) -> Vec<(Ep, u8, Vec<Vec<u8>
 
 fn gen_spec(ch: &mut Ch) -> IsoSpec {
     let n = 2 + ch.weighted(&[70, 30], "iso.n");
-    let upload_family = ch.below(2, "iso.upload") == 1;
-    let keys = key_variants(ch, n, upload_family);
+    let extra_blocks = if thorough() { 3 } else { 0 };
+    let keys = key_variants(ch, n);
     let szx = ch.below(3, "iso.szx") as u8;
     let size = 16usize << szx;
     let mut resources: BTreeMap<Vec<Vec<u8>>, ResSpec> = BTreeMap::new();
@@ -79,10 +83,11 @@ fn gen_spec(ch: &mut Ch) -> IsoSpec {
     // one budget for the server: room for exactly this block size
     let budget = 40 + size + ch.below(10, "iso.budget.slack") as usize;
     for (ci, (ep, method, path)) in keys.iter().enumerate() {
-        let nblocks = 2 + ch.below(4, "iso.nblocks") as usize;
+        let nblocks = 2 + ch.below(4 + extra_blocks, "iso.nblocks") as usize;
         let len = nblocks * size - ch.below(size as u64, "iso.tail") as usize;
         let r = resources.entry(path.clone()).or_insert_with(|| ResSpec { lens: vec![len], opts: vec![], up_reply_lens: vec![0], own_block2: None });
-        let kind = if upload_family {
+        let upload = !(*method == 1 || *method == 5);
+        let kind = if upload {
             if ch.chance(1, 3, "iso.updown") {
                 // the reply to the upload is itself block-wise
                 r.up_reply_lens = vec![2 * size + 3];
